@@ -19,6 +19,14 @@ Oracles
   (c) the singlet-like modes use the contour with offset 1, all others offset 0 (eko.mellin docstring).
 The pair (last node, last basis function) is skipped exactly as the solver skips it (x = 1: the integrand is
 identically 0 and the operator entry is set by initialisation).
+
+Solver cases: the arguments above are typed copies of the solver's; that the solver really integrates this way is
+decided by running the real eko.evolution_operator.Operator (real managers of an EKO built from runcards, real
+integrate() -> run_op_integration -> quad_ker_ad -> scipy quad) at LO with trivial evolution, i.e. with the coupling
+at the target set equal to the one at the origin (non-singlet: exactly, kernel == 1; singlet: a1 = a0 (1 + 1e-13),
+because the LO singlet exponential is 0/0 for exactly equal couplings), and comparing every entry of the resulting
+operator members with the same two oracles (plus: off-diagonal singlet sectors vanish, the initialised last entry
+is the Kronecker value).
 """
 
 import sys
@@ -36,7 +44,8 @@ LEVEL_TEXT = (
     "every basis function of every lattice grid is Mellin-inverted with the solver's own integrand, contour and "
     "quad arguments at every node and at interior points of every cell and compared (2e-5) with an independently "
     "derived contour integral, and with the x-space value up to the independently computed remainder of the "
-    "contour cut"
+    "contour cut; the same two comparisons are made for every entry of the members that the real Operator.integrate() "
+    "produces with trivial evolution (LO, equal couplings) on 8- and 12-point grids with narrow cells"
 )
 LEVEL_NOTE = (
     "decides the property on the lattice only; contour parameters r, o are read from eko.mellin.Path (the property "
@@ -62,7 +71,138 @@ def _points(g, lg, degree, fracs):
     return pts
 
 
+SOLVER_SHIFT = {"non-singlet": 0.0, "singlet": 1e-13}
+
+
+def _evaluate_solver(case):
+    """The real Operator with trivial evolution: its members are the Mellin inversions of the basis."""
+    import os
+    import shutil
+
+    import eko.evolution_operator as evop
+    from eko import interpolation as I
+    from eko import mellin
+    from eko.io.struct import EKO
+    from eko.matchings import Segment
+    from eko.runner import parts
+    from vf.core import cards
+
+    res = Result()
+    shape, n, xmin, d, cname = case["shape"], case["n"], case["xmin"], case["degree"], case["contour"]
+    g = G.make(shape, n, xmin)
+    singlet = cname == "singlet"
+    shift = SOLVER_SHIFT[cname]
+    where0 = f"real Operator, LO, a1=a0*(1+{shift}), shape={shape} n={n} xmin={xmin} degree={d} contour={cname}"
+    sig = f"degree={d}"
+    cfg = dict(xgrid=list(g), degree=d, is_log=True, mugrid=[[10.0, 4]], order=[1, 0], skip_singlet=not singlet, skip_non_singlet=singlet)
+    info = {
+        "max_solver_dev_from_reference_integral": 0.0,
+        "max_solver_literal_dev": 0.0,
+        "max_solver_offdiagonal": 0.0,
+        "max_contour_cut_remainder": 0.0,
+        "max_reference_selfcheck": 0.0,
+        "integrals": 0,
+    }
+    path = cards.scratch_path("c35")
+    e = None
+    try:
+        th, opc = cards.build(cfg)
+        e = EKO.create(path).load_cards(th, opc).build()
+
+        class Trivial(evop.Operator):
+            def compute_a(self):
+                a0 = super().compute_a()[0]
+                return (a0, (a0[0] * (1.0 + shift), a0[1]))
+
+        o = Trivial(parts._evolve_configs(e), parts._managers(e), Segment(1.65**2, 100.0, 4))
+        o.initialize_op_members()
+        o.integrate()
+        labels = [tuple(int(x) for x in l) for l in o.labels]
+        members = {tuple(int(x) for x in l): np.array(o.op_members[l].value, dtype=float) for l in o.labels}
+        lg = np.log(o.int_disp.xgrid.raw)
+    except Exception as exc:  # noqa
+        res.fail(f"solver/raises/{sig}", f"{where0}: {type(exc).__name__}: {exc}")
+        res.outcome = "solver-raises"
+        return res
+    finally:
+        if e is not None:
+            shutil.rmtree(e.metadata.path, ignore_errors=True)
+        try:
+            os.unlink(path)
+        except OSError:
+            pass
+    want_labels = [(100, 100), (100, 21), (21, 100), (21, 21)] if singlet else [(10101, 0)]
+    if sorted(labels) != sorted(want_labels):
+        res.fail(f"solver/sectors/{sig}", f"{where0}: sectors integrated {labels}, expected {want_labels}")
+        res.outcome = "solver-sectors"
+        return res
+    diag = [l for l in labels if l[1] == 0 or l[0] == l[1]]
+    off = [l for l in labels if l not in diag]
+    dx = I.InterpolatorDispatcher(I.XGrid(list(g), log=True), d, mode_N=False)
+    for k in range(n):
+        lx = float(lg[k])
+        pth = mellin.Path(0.7, lx, singlet)
+        contour = M.Contour(float(pth.r), float(pth.o), CUT)
+        contour_ref = M.Contour(0.4 * 16.0 / (0.1 - lx), 1.0 if singlet else 0.0, CUT)
+        for j in range(n):
+            where = f"{where0} node k={k} logx={lx!r} basis function j={j}"
+            if k == n - 1 and j == n - 1:
+                # never integrated: the initialisation has to provide the Kronecker value
+                for l in labels:
+                    want = 1.0 if l in diag else 0.0
+                    if members[l][k][j] != want:
+                        res.fail(f"solver/last-entry/{sig}", f"{where} sector {l}: {members[l][k][j]!r}, expected {want}")
+                continue
+            pieces = [(float(a[0]), float(a[1]), [float(c) for c in a[2:]]) for a in dx[j].areas_representation]
+            tr = contour.truncated(lx, pieces)
+            rem = contour.remainder(lx, pieces)
+            rem_ref = contour_ref.remainder(lx, pieces)
+            pv = M.piece_value(lx, pieces)
+            sc = abs(tr + rem - pv)
+            info["max_reference_selfcheck"] = max(info["max_reference_selfcheck"], sc)
+            if sc > 1e-7:
+                raise HarnessError(f"reference not self-consistent: {where}: truncated {tr} + remainder {rem} != {pv}")
+            info["max_contour_cut_remainder"] = max(info["max_contour_cut_remainder"], abs(rem))
+            want = 1.0 if j == k else 0.0
+            for l in diag:
+                val = float(members[l][k][j])
+                info["integrals"] += 1
+                if not np.isfinite(val):
+                    res.fail(f"solver/non-finite/{sig}", f"{where} sector {l}")
+                    continue
+                dev = abs(val - tr)
+                if dev > TOL:
+                    res.fail(
+                        f"solver/vs-reference-integral/{sig}",
+                        f"{where} sector {l}: operator entry = {val!r}, independent contour integral = {tr!r} "
+                        f"(x-space value {pv!r}, contour-cut remainder {rem:.3e}, tol {TOL})",
+                    )
+                    continue
+                info["max_solver_dev_from_reference_integral"] = max(info["max_solver_dev_from_reference_integral"], dev)
+                ldev = abs(val - want)
+                if ldev > abs(rem_ref) + TOL:
+                    res.fail(
+                        f"solver/vs-x-space/{sig}",
+                        f"{where} sector {l}: operator entry = {val!r}, x-space basis = {want!r}; the contour cut of the reference path explains only {abs(rem_ref):.3e} (+ tol {TOL})",
+                    )
+                else:
+                    info["max_solver_literal_dev"] = max(info["max_solver_literal_dev"], ldev)
+            for l in off:
+                val = float(members[l][k][j])
+                info["integrals"] += 1
+                if not (abs(val) <= TOL):
+                    res.fail(f"solver/off-diagonal-sector/{sig}", f"{where} sector {l}: operator entry = {val!r}, expected 0 (tol {TOL})")
+                else:
+                    info["max_solver_offdiagonal"] = max(info["max_solver_offdiagonal"], abs(val))
+    res.info = info
+    res.nontrivial = info["integrals"] > 0
+    res.outcome = f"solver,n={n},degree={d},{cname}"
+    return res
+
+
 def evaluate(case):
+    if case["kind"] == "solver":
+        return _evaluate_solver(case)
     from scipy import integrate
 
     import eko.evolution_operator  # noqa: F401  (binds the submodule)
@@ -209,6 +349,15 @@ def run(ctx):
                          "fracs": fracs, "block": b, "nblocks": nblocks}
                     )
     cases.append({"kind": "offsets"})
+    # grids with narrow cells: there the part of the inversion that the contour cut leaves out is 10-300 x the tolerance,
+    # so the solver's cut, limits and accuracy settings matter for the comparison
+    solver = [("irregular", 8, 1e-3, 1), ("irregular", 8, 1e-3, 3), ("irregular", 12, 0.1, 2)]
+    if thorough:
+        solver += [("irregular", 8, 1e-3, 2), ("irregular", 8, 1e-3, 4), ("irregular", 12, 0.1, 1), ("irregular", 12, 0.1, 4),
+                   ("geometric", 12, 0.1, 1), ("geometric", 6, 1e-4, 3), ("geometric", 8, 1e-6, 2)]
+    for shape, n, xmin, d in solver:
+        for cname in CONTOURS:
+            cases.append({"kind": "solver", "shape": shape, "n": n, "xmin": xmin, "degree": d, "contour": cname})
     results = ctx.run_cases(cases, evaluate, chunksize=1)
     nint = sum((r[1][3] or {}).get("integrals", 0) for r in results)
     ctx.rule = (
@@ -217,11 +366,18 @@ def run(ctx):
         + "x degree 1..4 (< size) x {singlet, non-singlet} contour; per case every inversion point in "
         f"{{all nodes}} + (degree>=2) {{fractions {fracs} of every cell in ln x}} x every basis function "
         f"(solver-skipped pair excluded): {nint} quad integrations of the real integrand; plus the contour offset "
-        f"of {len(SINGLET_LIKE + OTHERS)} sector ids; non-trivial = at least one non-zero value inverted"
+        f"of {len(SINGLET_LIKE + OTHERS)} sector ids; plus {2 * len(solver)} solver cases (grid, degree) in {solver} x {{non-singlet, singlet}}: "
+        "every entry of every member of the real LO Operator integrated with trivial evolution; "
+        "non-trivial = at least one non-zero value inverted"
     )
     ctx.assumptions += [
         "trivial evolution: the kernel factor multiplying QuadKerBase.integrand is exactly 1 (as in quad_ker_ad: Re(ker*integrand))",
-        "quad arguments copied from Operator.run_op_integration: limits 0.5..0.95, epsabs=1e-12, epsrel=1e-5, limit=100",
+        "quad arguments copied from Operator.run_op_integration: limits 0.5..0.95, epsabs=1e-12, epsrel=1e-5, limit=100; "
+        "the solver cases run Operator.integrate() itself and are held to the same references",
+        "solver cases: trivial evolution = Operator.compute_a overridden so that a_s(target) = a_s(origin) (non-singlet, LO kernel exactly 1) "
+        "resp. a_s(origin)*(1+1e-13) (singlet: the LO singlet exponential is undefined at exactly equal couplings); the operator entries "
+        "then differ from those of the unit kernel by < 1e-7 (measured: off-diagonal sectors <= 4e-8, recorded); Operator.compute() itself "
+        "returns the identity without integrating when origin == target",
         "tolerance 2e-5 absolute against the independent integral (measured max 1.6e-6, dominated by double-precision "
         "cancellation against |x^-N| ~ 1e9 at x=1e-6); against the x-space value the independently computed remainder "
         "of the contour cut is added (measured up to 5e-2 off-node, 1.2e-2 at nodes on 12-point irregular grids)",
